@@ -181,6 +181,20 @@ def sharing_cases(_=None):
              fdl.Config(f, {'a': l, 'b': m, 'c': m}), False),
             ('same aliasing, other objects', fdl.Config(f, a1, [a2, a1]),
              fdl.Config(f, (b1 := fdl.Config(dags.node_fn(1), 1)), [fdl.Config(dags.node_fn(1), 1), b1]), True)]
+  # both sides hold the *same* sub-configuration N; a descendant of N is aliased from outside N on
+  # one side and replaced by an equal copy on the other (shallow copy, then un-alias)
+  enc = fdl.Config(dags.node_fn(1), 7)
+  model = fdl.Config(dags.node_fn(2), enc)
+  x_common = fdl.Config(f, model, enc)
+  y_common = copy.copy(x_common)
+  y_common.p1 = copy.deepcopy(enc)
+  lst_inner = [1, 2]
+  holder = fdl.Config(dags.node_fn(2), {'k': lst_inner})
+  pairs += [('alias into a common subtree vs equal copy (Config)', x_common, y_common, False),
+            ('alias into a common subtree vs equal copy (Config), swapped', y_common, x_common, False),
+            ('alias into a common subtree vs equal copy (list)', fdl.Config(f, holder, lst_inner),
+             fdl.Config(f, holder, [1, 2]), False),
+            ('alias into a common subtree, both sides', fdl.Config(f, model, enc), fdl.Config(f, model, enc), True)]
   # dict insertion order is ignored also when a node is shared across the entries
   sh = fdl.Config(dags.node_fn(1), 2)
   pairs += [('dict order, node shared across entries', fdl.Config(f, {'a': sh, 'b': sh}),
